@@ -16,7 +16,10 @@ its real `NonnegMean` object.
 Oracle (theorem `RiskLimit.audit_risk_limit_run`): if some assertion of contest c is false on the population — its
 data values average at most 1/2 — the fraction of orders on which the audit is EVER reported complete is at most c's
 risk limit.  Oracle C09: the audit is reported complete at draw k only if every assertion's p-value, recomputed from
-its own test on its own data, is at most its contest's risk limit.
+its own test on its own data, is at most its contest's risk limit.  Oracle `oracle_outcome` (theorems
+`RiskLimit.plurality_outcome_polling_risk_limit` / `plurality_outcome_comparison_risk_limit`, C09): if the reported outcome
+of a plurality contest is wrong on the manual records -- decided from the case's candidates and winners, not from the
+assertions the real constructor built -- the fraction of orders that ever complete is at most that contest's limit.
 """
 import contextlib, copy, io, json, math
 from fractions import Fraction as F
@@ -268,7 +271,72 @@ def oracle_risk(case, ir):
     return None
 
 
-ORACLES = {"C09": oracle_risk, "C01": oracle_risk}
+def unconfirmed_contests(case, desc=None):
+    """(contest id, limit, winner, loser, marks) of the plurality / approval contests whose reported outcome cannot be
+    confirmed from the MANUAL records, as `RiskLimit.PluralityOutcomeUnconfirmed` (RiskLimitOutcome.lean) states it:
+    some reported winner has at most as many marks on the found ballots of the cards under audit as some reported
+    loser plus the number of records the overstatement scores 0 (polling: all cards, nothing scored 0).  Computed from
+    the case's candidates / winners, NOT from the assertions the real constructor built -- that every (winner, loser)
+    pair has its assertion is the hypothesis `hall` of the contest-level theorems and is what this oracle tests."""
+    desc = desc or describe(case)
+    comparison = case["audit_type"] != "POLLING"
+    style = bool(case.get("use_style"))
+    out = []
+    for c, d in zip(case["contests"], desc):
+        if c.get("choice_function", "PLURALITY") not in ("PLURALITY", "APPROVAL"):
+            continue
+        cid = c["id"]
+        W = list(c["winner"])
+        L = [x for x in c["candidates"] if x not in W]
+        idx = [i for i in range(len(case["mvrs"]))
+               if not (comparison and style) or cid in case["cvrs"][i]["votes"]]
+
+        def zeroed(m):
+            return comparison and (bool(m.get("phantom")) or (style and cid not in m["votes"]))
+        found = [case["mvrs"][i] for i in idx if not zeroed(case["mvrs"][i])]
+        lost = sum(1 for i in idx if zeroed(case["mvrs"][i]))
+
+        def marks(x):
+            return sum(1 for m in found if m["votes"].get(cid, {}).get(x))
+        # the tests: every assertion the contest has is a shipped test in its documented range on the cards under audit
+        if not all(documented(a["init"]) and a["init"]["N"] == len(idx) for a in d["assertions"]):
+            continue
+        bad = [(w, l) for w in W for l in L if marks(w) <= marks(l) + lost]
+        if bad:
+            w, l = bad[0]
+            # finding F30: two (winner, loser) pairs with the same dict key `winr + " v " + losr`
+            clash = len({x + " v " + y for x in W for y in L}) < len(W) * len(L)
+            out.append((cid, F(d["limit"]), w, l, (marks(w), marks(l), lost), clash))
+    return out
+
+
+def oracle_outcome(case, ir):
+    """theorems `RiskLimit.plurality_outcome_polling_risk_limit` / `plurality_outcome_comparison_risk_limit`: a wrong
+    reported outcome => the fraction of draw orders on which the audit is ever reported complete is at most that
+    contest's risk limit"""
+    if ir.get("st") != "ok":
+        return None
+    un = unconfirmed_contests(case)
+    if not un:
+        return None
+    f = ir["first"]
+    frac = F(sum(1 for x in f if x is not None), len(f))
+    for cid, lim, w, l, (mw, ml, lost), clash in un:
+        if frac > lim:
+            return {**({"finding": "F30:assertion-name-clash"} if clash else {}),
+                    "what": f"the reported outcome of contest {cid} is wrong on the manual records (reported winner {w}: "
+                            f"{mw} marks, reported loser {l}: {ml} marks, {lost} records scored 0) but the audit is "
+                            f"reported complete on {frac} = {float(frac):.4g} of the {len(f)} equally likely draw orders, "
+                            f"more than the contest's risk limit {lim} (is there an assertion for every (winner, loser) "
+                            f"pair?)", "risk": str(frac), "limit": str(lim)}
+    return None
+
+
+def oracle_c09(case, ir):
+    return oracle_risk(case, ir) or oracle_outcome(case, ir)
+
+
+ORACLES = {"C09": oracle_c09, "C01": oracle_risk}
 
 CANDS = ["Ann", "Bob", "Cy"]
 
@@ -359,6 +427,32 @@ def gen_case(rng, tier):
     return case
 
 
+K2_TRUE = [["a", "b"], ["a", "c"], ["a"], ["b"], ["c"]]
+K2_REPORTED = [["a", "b"], ["a", "c"], ["a"], ["b"], ["b"]]
+
+
+def k2(at, cv, kw):
+    def card(i, ms):
+        return mk_card(i, {"AvB": {m: 1 for m in ms}})
+    return {"audit_type": at, "contests": [{"id": "AvB", "risk_limit": "3/5", "candidates": ["a", "b", "c"],
+                                            "winner": ["a", "b"], "n_winners": 2, "test": "alpha_mart",
+                                            "estim": "fixed_alternative_mean", "bet": None, "test_kwargs": kw}],
+            "cvrs": [card(i, m) for i, m in enumerate(cv)], "mvrs": [card(i, m) for i, m in enumerate(K2_TRUE)]}
+
+
+def clash_case():
+    X, Y = "a v b", "b v c"
+    true = [[X], [X], [X], [Y], [Y], ["a"]]
+
+    def card(i, ms):
+        return mk_card(i, {"K": {m: 1 for m in ms}})
+    return {"audit_type": "POLLING", "contests": [{"id": "K", "risk_limit": "3/5", "candidates": ["a", X, Y, "c"],
+                                                   "winner": ["a", X], "n_winners": 2, "test": "alpha_mart",
+                                                   "estim": "fixed_alternative_mean", "bet": None,
+                                                   "test_kwargs": {"eta": 0.75}}],
+            "cvrs": [card(i, m) for i, m in enumerate(true)], "mvrs": [card(i, m) for i, m in enumerate(true)]}
+
+
 def corpus():
     def one(at, cv, mv, test="alpha_mart", estim=None, bet=None, kw=None, lim="1/5"):
         n = len(cv)
@@ -376,6 +470,12 @@ def corpus():
         one("CARD_COMPARISON", [A, A, A, B, A], [B, B, A, B, A], test="betting_mart", bet="fixed_bet", kw={"lam": 0.75}, lim="1/2"),
         one("POLLING", [A, A, A, B], [A, B, A, B], test="kaplan_kolmogorov", lim="1/2"),
         one("POLLING", [A, A, A, B], [A, B, A, B], test="wald_sprt", kw={"eta": 0.75}, lim="1/2"),
+        # the examples of Props/RiskLimitOutcome.lean: two winners, the third candidate ties the second on the manual
+        # records (a 3, b 2, c 2); polling: complete on 36 of the 120 orders; comparison (the CVRs say a 3, b 3, c 1): 48
+        k2("POLLING", K2_TRUE, {"eta": 0.75}),
+        k2("CARD_COMPARISON", K2_REPORTED, {"eta": 1.0}),
+        # (the election of finding F30 -- candidates `a`, `a v b`, `b v c`, `c` -- can no longer be built: since the
+        # repair make_plurality_assertions raises ValueError for it; its regression case lives in group `assorter`)
     ]
 
 
